@@ -33,6 +33,7 @@ type grpcOp struct {
 	Err    bool   `json:"err"`
 	Cls    string `json:"cls"`
 	LeCode string `json:"lecode"`
+	LeErr  string `json:"leerr"` // the error value of the custom limit-exceeded classifier: plain | status (itself a gRPC status of another code) | wrapped
 	Ctx    string `json:"ctx"` // live | cancelled (while the wrapped call runs) | expired
 }
 
@@ -48,7 +49,7 @@ type grpcRec struct {
 
 // grpcMsg is the message of an overlapping stream operation: it carries what the doubles need to answer for
 // this operation (the code the custom limit-exceeded classifier must choose, the response classification).
-type grpcMsg struct{ le, cls string }
+type grpcMsg struct{ le, cls, leerr string }
 
 type recLimiter struct {
 	name string
@@ -149,6 +150,17 @@ func leCode(req interface{}) codes.Code {
 func newGrpcStack(cfg grpcCfg) *grpcStack {
 	st := &grpcStack{rec: &grpcRec{}}
 	le := func(ctx context.Context, method string, req interface{}, l core.Limiter) (interface{}, codes.Code, error) {
+		// the verdict is the code; the error only supplies the message - even when it is a gRPC status of its own
+		kind := st.op.LeErr
+		if m, ok := req.(grpcMsg); ok {
+			kind = m.leerr
+		}
+		switch kind {
+		case "status":
+			return nil, leCode(req), status.Error(codes.DeadlineExceeded, "custom limit exceeded")
+		case "wrapped":
+			return nil, leCode(req), fmt.Errorf("custom limit exceeded: %w", status.Error(codes.PermissionDenied, "upstream"))
+		}
 		return nil, leCode(req), fmt.Errorf("custom limit exceeded")
 	}
 	uopts := []grpclimit.InterceptorOption{grpclimit.WithLimiter(&recLimiter{"main", st.rec})}
@@ -319,7 +331,7 @@ func TestGrpcRandom(t *testing.T) {
 			cfg = grpcCfg{Custom: r.chance(1, 2), CustomLE: r.chance(1, 2), Named: r.intn(3)}
 			st = newGrpcStack(cfg)
 		}
-		op := grpcOp{Kind: r.pick(kinds), Grant: r.chance(3, 5), Err: r.chance(1, 2), Cls: r.pick(cls), LeCode: []string{"Unavailable", "Aborted"}[r.intn(2)], Ctx: []string{"live", "live", "cancelled", "expired"}[r.intn(4)]}
+		op := grpcOp{Kind: r.pick(kinds), Grant: r.chance(3, 5), Err: r.chance(1, 2), Cls: r.pick(cls), LeCode: []string{"Unavailable", "Aborted"}[r.intn(2)], LeErr: []string{"plain", "status", "wrapped"}[r.intn(3)], Ctx: []string{"live", "live", "cancelled", "expired"}[r.intn(4)]}
 		obs, err := st.run(op)
 		if err != nil {
 			obs = J{"asked": []string{}, "ran": -1, "completed": []J{}, "code": err.Error(), "same": false}
